@@ -23,6 +23,7 @@ BOXES = {0: 8.0, 1: 7.25}
 
 
 def cases(tier, seed):
+    yield from _sweep_cases(tier)
     nps = [1, 2, 3, 4, 7]
     for npart in nps:
         for coord in (0, 1, 2):
@@ -33,6 +34,13 @@ def cases(tier, seed):
                             if tier == 'quick' and (coord + (dt == 'f8') + wts + sort + bi + npart + seed) % 3 != 0:
                                 continue
                             yield dict(np=npart, coord=coord, dt=dt, wts=wts, sort=sort, box=bi, maxfull=2 if tier == 'quick' else 3)
+
+
+def _sweep_cases(tier):
+    # the per-thread input ranges depend only on (N, nthread): sweep every N densely for every real thread count
+    top = 128 if tier == 'quick' else 1024
+    for lo in range(0, top, 32):
+        yield dict(kind='sweep', lo=lo, hi=min(lo + 32, top))
 
 
 def alphabet(npart, box, dtype):
@@ -120,7 +128,31 @@ def oracle(pos, w, out, npart, coord, box, dtype, sort, tag):
     return probs
 
 
+def run_sweep(case):
+    from abacusnbody.analysis import tsc
+    probs, nt = [], []
+    n = 0
+    box = 8.0
+    for N in range(case['lo'], case['hi']):
+        pos = np.empty((N, 3), dtype=np.float32)
+        pos[:, 0] = (np.arange(N) * 2.3) % box
+        pos[:, 1] = np.arange(N) + 0.5
+        pos[:, 2] = 7.0
+        w = (100 + np.arange(N)).astype(np.float32)
+        for nthread in range(1, 17):
+            ps, st, ws = tsc.partition_parallel(pos, 3, box, weights=w, coord=0, nthread=nthread, sort=False)
+            n += 1
+            for s_, m in oracle(pos, w, (ps, st, ws), 3, 0, box, np.float32, False, f'sweep N={N} nthread={nthread}'):
+                if not any(p['sig'] == 'sweep:' + s_ for p in probs):
+                    probs.append(dict(sig='sweep:' + s_, msg=m[:1500]))
+            if nthread > 1 and N:
+                nt.append(('sweep', N, nthread))
+    return dict(problems=probs, evals=n, nt=nt, states=1, transitions=1, traces=0, extra=dict(sweep_runs=n))
+
+
 def run(case):
+    if case.get('kind') == 'sweep':
+        return run_sweep(case)
     T = env()
     tsc, rt = T['tsc'], T['rt']
     npart, coord, sort = case['np'], case['coord'], case['sort']
